@@ -407,16 +407,31 @@ func runC13(tb stat.TB, c c13Case) {
 				viol("write-record-fails", "WriteRecord(%d bytes, fragment %d): %v", c.Len, c.FragSz, err)
 				return
 			}
+			// a second record behind it on the same stream: the writer leaves nothing between or after records
+			if err := w.WriteRecord(c13Sentinel); err != nil {
+				viol("write-record-fails", "WriteRecord of a second record behind a %d-byte one (fragment %d): %v", c.Len, c.FragSz, err)
+				return
+			}
 			// independent reader
-			out, err := nfsx.ReadRecord(bytes.NewReader(wire.Bytes()), 4<<20)
+			ir := bytes.NewReader(wire.Bytes())
+			out, err := nfsx.ReadRecord(ir, 4<<20)
 			if err != nil || !bytes.Equal(out, rec) {
 				viol("written-record-not-rfc1831", "WriteRecord(%d bytes, fragment %d) does not reassemble: %d bytes, %v", c.Len, c.FragSz, len(out), err)
 				return
 			}
+			if next, err := nfsx.ReadRecord(ir, 4<<20); err != nil || !bytes.Equal(next, c13Sentinel) || ir.Len() != 0 {
+				viol("written-stream-not-rfc1831", "the record written behind a %d-byte record (fragment %d) reads back as %x (%v), %d stray byte(s) after it", c.Len, c.FragSz, head(next), err, ir.Len())
+				return
+			}
 			if c.Len <= 1<<20 {
-				out2, err := absnfs.NewRecordMarkingReader(bytes.NewReader(wire.Bytes())).ReadRecord()
+				ar := absnfs.NewRecordMarkingReader(bytes.NewReader(wire.Bytes()))
+				out2, err := ar.ReadRecord()
 				if err != nil || !bytes.Equal(out2, rec) {
 					viol("write-then-read-not-identity", "ReadRecord(WriteRecord(%d bytes, fragment %d)) = %d bytes, %v", c.Len, c.FragSz, len(out2), err)
+					return
+				}
+				if next, err := ar.ReadRecord(); err != nil || !bytes.Equal(next, c13Sentinel) {
+					viol("write-then-read-not-identity", "the second record written behind a %d-byte one (fragment %d) reads back as %x (%v)", c.Len, c.FragSz, head(next), err)
 					return
 				}
 			}
